@@ -3,9 +3,9 @@ import sys
 
 from props import _cluster
 
-THEOREMS = ['XmlDiffModel.C04_getpath_unique', 'XmlDiffModel.C04_last_step_indexed', 'XmlDiffModel.C04_raw_path_unique']
+THEOREMS = ['XmlDiffModel.C04_getpath_unique', 'XmlDiffModel.C04_last_step_indexed', 'XmlDiffModel.C04_raw_path_unique', 'XmlDiffModel.C04_script_paths_unique']
 PARTIAL = {}
-LEAN_MODULES = ["XmlDiffModel.Props.C04"] if THEOREMS else []
+LEAN_MODULES = ['XmlDiffModel.Props.C04', 'XmlDiffModel.Props.Replay']
 SOURCES = ['utils.getpath', 'diff.Differ.diff', 'diff.Differ.align_children', 'patch.Patcher']
 RULE = "Differ cluster: U1 compares utils.getpath of every node and lxml xpath hit lists (also for paths with dropped / shifted indices) with the model's getpath / count-based resolve; the oracle replays the real script action by action under the strict semantics (every path must select exactly one node, last step indexed). Non-trivial = script has >= 2 action types or a move."
 ASSUMPTIONS = [
